@@ -2,7 +2,10 @@ package main
 
 func init() {
 	harnesses = append(harnesses, &Harness{Name: "federation", Pkg: "lib/controller",
-		Instr: []InstrSpec{{Pkg: "lib/controller/federation", Files: []string{"conn.go", "list.go"}, Rules: "R2,R4"}}})
+		Instr: []InstrSpec{
+			{Pkg: "lib/controller/federation", Files: []string{"conn.go", "list.go"}, Rules: "R1,R2,R4,R9:splitListRequest|tryLocalThenRemotes"},
+			// the legacy (ForceLegacyAPI14) fan-outs
+			{Pkg: "lib/controller", Files: []string{"fed_collections.go", "fed_generic.go"}, Rules: "R1,R2,R4"}}})
 	real := []string{
 		"lib/controller: Handler.ServeHTTP, router, federation.Conn (CollectionGet, tryLocalThenRemotes, rewriteManifest, saltedTokenProvider, splitListRequest, generated_*List), rpc.Conn, railsproxy/localdb wiring",
 		"lib/controller legacy path: setupProxyRemoteCluster, genericFederatedRequestHandler, fetchRemoteCollectionByUUID/ByPDH, rewriteSignatures, saltAuthToken, validateAPItoken, proxy.Do",
